@@ -158,8 +158,10 @@ def make_params(ctx, sym, conc):
       par.n_designs = v
       sv['k'] = v.e
     elif name == 'npm':
+      # pandas' iloc validates slice bounds with is_integer(): the symbolic
+      # int is concretised by the solver here (one path per value).
       v = symx.integer('npm', ctx.n_test + 3, ctx.D + 2)
-      par.n_pretest_max = v
+      par.n_pretest_max = int(eng().concretize(v.e))
       sv['npm'] = v.e
     else:
       raise KeyError(name)
@@ -206,8 +208,19 @@ class Outcome:
   pass
 
 
-def run(ctx, method, sym=(), conc=None, elig=None, record_push=False):
+class SearchTimeout(Exception):
+  """A single search call exceeded its wall-clock budget (non-termination
+  suspect); judged by the C09 oracle and confirmed by concrete replay."""
+
+
+def _alarm(signum, frame):
+  raise SearchTimeout('search call exceeded its per-path wall-clock budget')
+
+
+def run(ctx, method, sym=(), conc=None, elig=None, record_push=False,
+        path_timeout=None):
   """One execution of the real search inside the current engine path."""
+  import signal
   M = ctx.M
   out = Outcome()
   out.pushed = []
@@ -230,11 +243,18 @@ def run(ctx, method, sym=(), conc=None, elig=None, record_push=False):
       data = M['data'].TBRMMData(ctx.df.copy(), 'sales', ge)
       mm = M['mm'].TBRMatchedMarkets(data, par)
       out.mm = mm
-      with np.errstate(all='ignore'):
-        if method == 'exhaustive':
-          out.result = mm.exhaustive_search()
-        else:
-          out.result = mm.greedy_search()
+      if path_timeout:
+        signal.signal(signal.SIGALRM, _alarm)
+        signal.setitimer(signal.ITIMER_REAL, path_timeout)
+      try:
+        with np.errstate(all='ignore'):
+          if method == 'exhaustive':
+            out.result = mm.exhaustive_search()
+          else:
+            out.result = mm.greedy_search()
+      finally:
+        if path_timeout:
+          signal.setitimer(signal.ITIMER_REAL, 0)
     except Exception as e:  # pylint: disable=broad-except
       out.exc = e
   finally:
